@@ -35,7 +35,7 @@ def bounds(tier):
 
 
 def goals(tier):
-    return ["three-modules", "records-sharing-an-id", "product", "error-InvalidSequence", "error-DuplicateModules", "error-MissingModule", "palindromic-start-on-chain",
+    return ["three-modules", "records-sharing-an-id", "identical-sequence-twins", "product", "error-InvalidSequence", "error-DuplicateModules", "error-MissingModule", "palindromic-start-on-chain",
             "self-loop-module", "unused-module", "revcomp-starts", "equal-starts", "several-reasons"]
 
 
@@ -58,7 +58,11 @@ def space_size(tier):
         per_vec = 0
         for k in range(1, sp["kmax"] + 1):
             # multisets of size k over m module types, each with all k! orders of distinct objects
-            per_vec += math.comb(m + k - 1, k) * math.factorial(k) * len(idmodes(sp, k))
+            modes = idmodes(sp, k)
+            per_vec += math.comb(m + k - 1, k) * math.factorial(k) * len([x for x in modes if x != "twins"])
+            if "twins" in modes:
+                # multisets with at least one repeated module type
+                per_vec += (math.comb(m + k - 1, k) - math.comb(m, k)) * math.factorial(k)
         total += w * w * per_vec
     return total
 
@@ -113,7 +117,12 @@ def evaluate(st, scn):
     mods = [tuple(m) for m in scn["mods"]]
     perm = scn["perm"]
     vs = vec_string(enz, vup, vdown)
-    ms = [mod_string(enz, s, e, i) for i, (s, e) in enumerate(mods)]
+    if scn.get("twins") == "identical":
+        # the same part supplied twice: modules of equal type are distinct objects wrapping the very same sequence
+        first = {}
+        ms = [mod_string(enz, s, e, first.setdefault((s, e), i)) for i, (s, e) in enumerate(mods)]
+    else:
+        ms = [mod_string(enz, s, e, i) for i, (s, e) in enumerate(mods)]
     if vs is None or any(m is None for m in ms):
         st.filtered += 1
         return None
@@ -180,7 +189,9 @@ def evaluate(st, scn):
 def idmodes(sp, k):
     """identifier assignments of the module records: distinct ids everywhere; for the k<=2 spaces also one shared id and no id at all"""
     if sp["kmax"] <= 2 and k >= 2:
-        return ["distinct", "same", "default"]
+        return ["distinct", "same", "default", "twins"]
+    if k >= 2:
+        return ["distinct", "twins"]
     return ["distinct"]
 
 
@@ -196,7 +207,12 @@ def run_unit(unit, st, tier):
             mods = [types[i] for i in multiset]
             for perm, idmode in [(pm, im) for pm in itertools.permutations(range(k)) for im in idmodes(sp, k)]:
                 scn = dict(enz=enz, vup=vup, vdown=vdown, mods=[list(m) for m in mods], perm=list(perm))
-                if idmode != "distinct":
+                if idmode == "twins":
+                    if len(set(mods)) == len(mods):
+                        continue
+                    scn["twins"] = "identical"
+                    st.goal("identical-sequence-twins")
+                elif idmode != "distinct":
                     scn["ids"] = idmode
                     st.goal("records-sharing-an-id")
                 r = evaluate(st, scn)
